@@ -433,12 +433,12 @@ func vlIsPanicText(s string) bool {
 }
 
 // vlInproc runs the real stream handler of the real server object with only the upstream client replaced.
-func vlInproc(impl *adminServiceProxyServer, s int32, bound time.Duration) (md metadata.MD, fail, detail string) {
+func vlInproc(impl *adminServiceProxyServer, csh, s int32, bound time.Duration) (md metadata.MD, fail, detail string) {
 	cp := *impl
 	capc := &vlCapClient{}
 	cp.adminClient = capc
 	ctx, cancel := context.WithCancel(metadata.NewIncomingContext(context.Background(),
-		vlStreamMD(strconv.Itoa(vlClientCluster), "1", strconv.Itoa(vlServerCluster), strconv.Itoa(int(s)), "x")))
+		vlStreamMD(strconv.Itoa(vlClientCluster), strconv.Itoa(int(csh)), strconv.Itoa(vlServerCluster), strconv.Itoa(int(s)), "x")))
 	defer cancel()
 	type res struct {
 		err error
@@ -647,17 +647,27 @@ func vlPairRun(p vlPair, seed int64, bound time.Duration) ([]vlRec, error) {
 		if s > 1<<24 {
 			bound = 60 * time.Second
 		}
+		// the initiator's own shard id: Temporal opens the stream for LCM shard s from its shard c with s = c modulo its own count
+		// (the initiating cluster is the remote one on the inbound server, the local one on the outbound server)
+		initCount := p.L
+		if st.dir == "inbound" {
+			initCount = p.R
+		}
+		csh := int32(1)
+		if s >= 1 && initCount >= 1 {
+			csh = (s-1)%initCount + 1
+		}
 		var md metadata.MD
 		if viaGrpc {
 			rec.Path = "grpc"
 			req := fmt.Sprintf("%s-%s-%d-%d", st.dir, order, st.seq, s)
 			var o vlOpen
 			o, rec.Up, rec.Fail, rec.Detail = st.rig.vlGrpc(st.dir,
-				vlStreamMD(strconv.Itoa(vlClientCluster), "1", strconv.Itoa(vlServerCluster), strconv.Itoa(int(s)), req), req, bound)
+				vlStreamMD(strconv.Itoa(vlClientCluster), strconv.Itoa(int(csh)), strconv.Itoa(vlServerCluster), strconv.Itoa(int(s)), req), req, bound)
 			md = o.MD
 		} else {
 			rec.Path = "inproc"
-			md, rec.Fail, rec.Detail = vlInproc(st.impl, s, bound)
+			md, rec.Fail, rec.Detail = vlInproc(st.impl, csh, s, bound)
 			rec.Up = st.d.Up // the in-process copy has no upstream: it stands for the cluster DescribeCluster reached
 		}
 		if rec.Fail == "" {
